@@ -1383,7 +1383,7 @@ where
         ctx.sc += 1;
         ctx.k = 0;
         if let Some(x) = ctx.mk(v) {
-            if i < d - 1 || thorough {
+            if i == 0 || thorough {
                 let _ = ctx.unary("conj_chain", x);
             }
             let _ = ctx.unary("conj", x);
